@@ -126,7 +126,9 @@ class Density(ABC):
     def _make_copy(self):
         """ Returns a shallow copy of the density keeping a pointer to the original. """
         new_density = copy(self)
-        new_density._original_density = self
+        # Point to the original itself (not to the copy it was made from): a long chain of copies of copies
+        # would otherwise be walked recursively for the name and kept alive link by link
+        new_density._original_density = self._original_density if self._is_copy else self
         return new_density
 
     def __call__(self, *args, **kwargs):
